@@ -198,6 +198,19 @@ def bounded(check, tier, seed):
         if d:
             s.fail("C14.apply", case, d, replay={"kind": "suite", "module": "props.C14", "case": case})
     s.done()
+    # shared_atts / copy_with_new_str on every arrangement of up to 4 runs over attribute dicts that share their KEY SETS but not their
+    # values (A-B-A patterns, a differing run in the middle, empty runs): the sidecar contracts evaluated at run time
+    pool4 = [{"fg": 31}, {"fg": 34}, {"fg": 31, "bold": True}, {"fg": 31, "bold": False}, {"bg": 44, "fg": 31}, {"bg": 41, "fg": 31}]
+    s = Suite(check, "C14.shared", "shared_atts and copy_with_new_str on every sequence of 1..4 runs (texts 'x' / '') over 6 attribute dicts with equal "
+              "key sets and different values: every reported key/value is held by every run with characters; a uniformly formatted value keeps "
+              "its formatting under copy_with_new_str", bound="<= 4 runs")
+    for n_ in range(1, 5):
+        for combo in itertools.product(range(len(pool4)), repeat=n_):
+            for empties in ((), (1,)) if n_ > 1 else ((),):
+                f = FmtStr(*[Chunk("" if i in empties else "xy"[: 1 + i % 2], dict(pool4[c])) for i, c in enumerate(combo)])
+                s.contract_case(A.shared_atts, dict(self=f), key=("shared", combo, empties))
+                s.contract_case(A.copy_with_new_str, dict(self=f, new_str="zz"), key=("cwns", combo, empties))
+    s.done()
     # formatting applied to TEXT (not to an existing FmtStr): plain text, text carrying escape sequences that parse, and text whose
     # escape sequences do not parse (from_str then falls back to stripping them) - every spelling must format every character
     texts = ["", "ab", "a\nb", "\x1b[31mred\x1b[39m plain", "\x1b[1mB\x1b[0m\x1b[44mx", "\x1b[90mbright\x1b[0m", "x\x1b[22my", "\x1b[100mq\x1b[49m r",
